@@ -178,18 +178,159 @@ let run_sim (toks : string list) : string =
   let rs = run_history toks in
   String.concat " | " (List.map (fun (ii, _, _, os, e, used) -> iter_str ii.i_d ii.i_iter.it_now e used os) rs)
 
+(* ---------------------------------------------------------------- parsing observations back *)
+
+let name_of_labels (s : string) : n list =
+  if s = "~" then [] else
+    List.concat_map (fun l -> escape_label (bytes_of_hex l) @ [ n_of_int 46 ]) (split_on '.' s)
+
+let obs_rdata (s : string) : rdata =
+  let k = s.[0] and v = String.sub s 1 (String.length s - 1) in
+  match k with
+  | 'A' -> RAddr (bytes_of_hex v)
+  | 'P' -> RPtr (name_of_labels v)
+  | 'S' -> (match split_on '_' v with
+      | [ p; w; po; h ] -> RSrv (n_of_dec p, n_of_dec w, n_of_dec po, name_of_labels h)
+      | _ -> failwith "obs srv")
+  | 'T' -> RTxt (bytes_of_hex v)
+  | _ -> RTxt (bytes_of_hex v)
+let obs_rr (s : string) : rr =
+  match split_on '/' s with
+  | [ name; ty; cls; fl; ttl; rd ] ->
+    { r_name = name_of_labels name; r_type = n_of_dec ty; r_class = n_of_dec cls; r_flush = (fl = "1");
+      r_ttl = n_of_dec ttl; r_data = obs_rdata rd }
+  | _ -> failwith "obs rr"
+let obs_q (s : string) = match split_on '/' s with [ n; t ] -> (name_of_labels n, n_of_dec t) | _ -> failwith "obs q"
+
+let obs_item (s : string) : out option =
+  match split_on ':' s with
+  | [ "S"; i; fam; d; qr; qs; an; ns; ar; _ ] ->
+    let dest = if d = "M" then Mcast else
+        (match split_on '_' (String.sub d 1 (String.length d - 1)) with
+         | [ ip; p ] -> Ucast (bytes_of_hex ip, n_of_dec p) | _ -> failwith "dest") in
+    Some (OSend (n_of_dec i, fam = "4", dest,
+                 { o_resp = (qr = "R"); o_q = List.map obs_q (items '+' qs); o_an = List.map obs_rr (items '+' an);
+                   o_ns = List.map obs_rr (items '+' ns); o_ar = List.map obs_rr (items '+' ar) }))
+  | [ "E"; "A"; name; det ] ->
+    Some (OAnnounce (bytes_of_hex name,
+                     if det = "-" then None else
+                       (match split_on '_' det with [ h; i ] -> Some (bytes_of_hex h, bytes_of_hex i) | _ -> None)))
+  | [ "E"; "N"; o; nw; ty; i ] -> Some (ONameChange (bytes_of_hex o, bytes_of_hex nw, n_of_dec ty, bytes_of_hex i))
+  | [ "E"; "R"; i ] -> Some (ORespond (bytes_of_hex i))
+  | [ "U"; ch; r ] -> Some (OReply (bytes_of_hex ch, r = "OK"))
+  | _ -> None
+
+(* observation line -> per iteration (daemon, now, ending, items) *)
+let parse_obs (result : string) : (int * string * ending * out list) list =
+  List.filter_map (fun part ->
+      match split_on ' ' (String.trim part) with
+      | hd :: rest when String.length hd > 0 && hd.[0] = '@' ->
+        (match split_on ':' (String.sub hd 1 (String.length hd - 1)) with
+         | [ d; now; e; _ ] ->
+           let e = (match e with "R" -> Running | "X" -> Exited | _ -> Panicked) in
+           Some (int_of_string d, now, e, List.filter_map obs_item rest)
+         | _ -> None)
+      | _ -> None) (split_str " | " result)
+
+let verdict_str (vs : verdict list) : string =
+  let uniq l = List.sort_uniq compare l in
+  let fails = uniq (List.filter_map (function VFail c -> Some (int_of_n c) | _ -> None) vs) in
+  let knowns = uniq (List.filter_map (function VKnown c -> Some (int_of_n c) | _ -> None) vs) in
+  let j l = String.concat "," (List.map string_of_int l) in
+  if fails = [] && knowns = [] then "PASS"
+  else "FAIL" ^ (if fails <> [] then " fail=" ^ j fails else "") ^ (if knowns <> [] then " known=" ^ j knowns else "")
+
+let mon_history (id : string) (toks : string list) (result : string) : string =
+  let (ds, its) = parse_history toks in
+  let obs = parse_obs result in
+  if List.length obs <> List.length its then "FAIL fail=90 (observation has a different number of iterations)"
+  else begin
+    let per_daemon = List.map (fun (k, ifs) ->
+        let mine = List.filter (fun (ii, _) -> ii.i_d = k) (List.combine its obs) in
+        let its_k = List.map (fun (ii, _) -> ii.i_iter) mine in
+        let obs_k = List.map (fun (ii, (_, _, e, os)) -> { ob_outs = os; ob_end = e; ob_wake = ii.i_wake }) mine in
+        (k, ifs, its_k, obs_k)) ds in
+    let check st0 its_k obs_k =
+      match id with
+      | "C07" -> chk_C07 g7_init st0 its_k obs_k
+      | "C08" -> chk_C08 st0 its_k obs_k
+      | "C09" -> chk_C09 st0 its_k obs_k
+      | _ -> [ VFail (n_of_int 99) ] in
+    let vs = List.concat_map (fun (_, ifs, its_k, obs_k) -> check (d_init ifs) its_k obs_k) per_daemon in
+    (* the same checker on the model's own run of this history: never a VFail *)
+    let self = List.concat_map (fun (_, ifs, its_k, _) -> check (d_init ifs) its_k (model_obs (d_init ifs) its_k)) per_daemon in
+    let self_fail = List.exists (function VFail _ -> true | _ -> false) self in
+    (* several daemons registering one instance on a loss-free link: the final outcome *)
+    let final =
+      if id = "C08" && List.length ds >= 2 then begin
+        let regs = List.concat_map (fun (_, _, its_k, _) ->
+            List.concat_map (fun it -> List.filter_map (function CRegister s -> Some s.s_full | _ -> None) it.it_calls) its_k) per_daemon in
+        match regs with
+        | r0 :: _ when List.length regs = List.length ds && List.for_all (fun r -> same_name_ci r r0) regs ->
+          c08_final r0 (List.map (fun (_, _, _, obs_k) -> List.concat_map (fun o -> ann_names o.ob_outs) obs_k) per_daemon)
+        | _ -> []
+      end else [] in
+    let s = verdict_str (vs @ final) in
+    if self_fail then (if s = "PASS" then "FAIL fail=91 (checker rejects the model's own run)" else s ^ " modelself") else s
+  end
+
+let cmp_of_string s = match s with "-1" -> Lt | "0" -> Eq | "1" -> Gt | _ -> failwith "cmp"
+let opp = function Lt -> Gt | Gt -> Lt | Eq -> Eq
+
+let mon_c08_component (case : string list) (result : string) : string =
+  match case, split_on ' ' result with
+  | [ ("nc" | "hc"); h ], [ "OK"; r ] ->
+    let o = bytes_of_hex h and nw = bytes_of_hex r in
+    if not (first_label_encodable o) then "PASS outside-quantifier"
+    else if rename_ok o nw then "PASS"
+    else if not (rename_keeps_rest o nw) then "FAIL known=51"
+    else if not (first_label_encodable nw) then "FAIL known=52"
+    else "FAIL fail=53"
+  | [ "cmp"; a; b ], [ "OK"; cab; _; cba ] ->
+    let ra = parse_rec_k a and rb = parse_rec_k b in
+    let cab = cmp_of_string cab and cba = cmp_of_string cba in
+    if well_typed ra && well_typed rb then begin
+      if cab <> opp cba then "FAIL fail=54 (compare is not antisymmetric)"
+      else if (cab = Eq) <> (compare_rr ra rb = Eq) then "FAIL fail=55"
+      else "PASS"
+    end else "PASS outside-quantifier"
+  | [ "cmp3"; a; b; c ], [ "OK"; cab; cbc; cac ] ->
+    let ra = parse_rec_k a and rb = parse_rec_k b and rc = parse_rec_k c in
+    let cab = cmp_of_string cab and cbc = cmp_of_string cbc and cac = cmp_of_string cac in
+    if well_typed ra && well_typed rb && well_typed rc then begin
+      if cab = Lt && cbc = Lt && cac <> Lt then "FAIL fail=56 (compare is not transitive)"
+      else if cab = Gt && cbc = Gt && cac <> Gt then "FAIL fail=56 (compare is not transitive)"
+      else if cab = Eq && cac <> cbc then "FAIL fail=57"
+      else if cbc = Eq && cac <> cab then "FAIL fail=57"
+      else "PASS"
+    end else "PASS outside-quantifier"
+  | _, [ "SKIP" ] -> "PASS skipped"
+  | _ -> "BAD result format"
+
 let run_case (line : string) : string =
   match split_on ' ' line with
   | "simh" :: _ :: rest -> run_sim rest
+  | "simdue" :: _ :: rest ->
+    (* debugging aid: per iteration, the model's earliest due work afterwards and the wake-up the daemon asked for *)
+    String.concat " | " (List.map (fun (ii, _, st', _, _, _) ->
+        Printf.sprintf "%s due=%s wake=%s" (dec_n ii.i_iter.it_now)
+          (match due_work st' with Some d -> dec_n d | None -> "-")
+          (match ii.i_wake with Some w -> dec_n w | None -> "-")) (run_history rest))
   | [ "nc"; h ] -> "OK " ^ hex_of_bytes (name_change (bytes_of_hex h))
   | [ "hc"; h ] -> "OK " ^ hex_of_bytes (hostname_change (bytes_of_hex h))
   | [ "cmp"; a; b ] ->
     let ra = parse_rec_k a and rb = parse_rec_k b in
-    "OK " ^ cmp_str (compare_rr ra rb) ^ " " ^ b01 (rrdata_match ra rb)
+    "OK " ^ cmp_str (compare_rr ra rb) ^ " " ^ b01 (rrdata_match ra rb) ^ " " ^ cmp_str (compare_rr rb ra)
+  | [ "cmp3"; a; b; c ] ->
+    let ra = parse_rec_k a and rb = parse_rec_k b and rc = parse_rec_k c in
+    "OK " ^ cmp_str (compare_rr ra rb) ^ " " ^ cmp_str (compare_rr rb rc) ^ " " ^ cmp_str (compare_rr ra rc)
+  | "sim" :: _ -> "NOTAMODELINPUT"
   | "SKIPCASE" :: _ -> "SKIP"
   | _ -> "BADCASE"
 
 let run_monitor (id : string) (case : string list) (result : string) : string =
-  ignore id; ignore case; ignore result; "PASS"
+  match case with
+  | "simh" :: _ :: rest -> mon_history id rest result
+  | _ -> if id = "C08" then mon_c08_component case result else "BADCASE"
 
 let () = main_loop run_case run_monitor
